@@ -81,6 +81,8 @@ structure StartInv (cfg : Cfg) (now : Nat) (cl : Call) : Prop where
   drain : cl.phase = .drain → (starts cl).length = cfg.max
   /-- outside parallel mode the attempt whose delay is never due is not started -/
   nev : 1 < cfg.max → cfg.delay 1 ≠ 0 → ∀ n, 1 ≤ n → cfg.never n = true → (starts cl).length ≤ n
+  /-- the drain phase is entered only when the mode test fails (`max = 1` or `delay 1 = 0`) -/
+  drainMode : cl.phase = .drain → ¬ (1 < cfg.max ∧ cfg.delay 1 ≠ 0)
 
 structure ChanInv (cfg : Cfg) (now : Nat) (cl : Call) : Prop where
   finOk : ∀ a ∈ cl.attempts, ∀ tf, a.fin = some tf → a.doneAt ≤ tf ∧ tf ≤ now ∧ a.out ≠ .never
@@ -91,14 +93,24 @@ structure ChanInv (cfg : Cfg) (now : Nat) (cl : Call) : Prop where
   count : cl.phase = .latency →
     cl.errors + cl.chan.countP (fun m => isErr m.out) = cl.attempts.countP finErr ∧ cl.errors < cfg.max
   fresh : cl.phase = .fresh → cl.attempts = [] ∧ cl.chan = [] ∧ cl.errors = 0 ∧ cl.recvd = []
+  /-- every completed attempt that produces a message has sent it: it is queued or has been received -/
+  sentIn : live cl.phase = true → ∀ a ∈ cl.attempts, sendable a.out = true → a.fin.isSome = true →
+    a ∈ cl.chan ∨ a ∈ cl.recvd
+  /-- drain phase: while `primary_error` is unset nothing has been received -/
+  noErrYet : cl.phase = .drain → cl.firstErr = none → cl.recvd = []
 
 /-- what a result means -/
 def ResOk (cfg : Cfg) (cl : Call) (t : Nat) : Res → Prop
   | .ok v => ∃ a ∈ cl.attempts, a.k = v ∧ a.out = .ok ∧ ∃ tf, a.fin = some tf ∧ a.doneAt ≤ tf ∧ tf ≤ t ∧
       ∀ b ∈ cl.attempts, b.out = .ok → ∀ tb, b.fin = some tb → tf ≤ tb
-  | .allFailed _ _ => cl.attempts.length = cfg.max ∧
-      ∀ a ∈ cl.attempts, ∃ tf, a.fin = some tf ∧ tf ≤ t ∧ isFail a.out = true
-  | .panic => True
+  | .allFailed _ _ => (cl.attempts.length = cfg.max ∧
+      ∀ a ∈ cl.attempts, ∃ tf, a.fin = some tf ∧ tf ≤ t ∧ isFail a.out = true) ∧
+      -- latency mode counts *errors received*: there, every attempt has ended with an error (none panicked)
+      (1 < cfg.max → cfg.delay 1 ≠ 0 → ∀ a ∈ cl.attempts, isErr a.out = true)
+  -- the drain phase's `expect`: channel closed and no error ever received — never in latency mode, and only when
+  -- every attempt the call can start was started and every one of them panicked
+  | .panic => ¬ (1 < cfg.max ∧ cfg.delay 1 ≠ 0) ∧ cl.attempts.length = cfg.max ∧
+      ∀ a ∈ cl.attempts, a.out = .panic ∧ ∃ tf, a.fin = some tf ∧ tf ≤ t
   -- a call resolves with a response, with all-attempts-failed, or by the drain phase's panic — with nothing else
   -- (in particular never with `HedgeError::Inner`: that is the answer to a failed readiness poll, `Op.refused`)
   | _ => False
@@ -145,6 +157,7 @@ theorem StartInv.congr {cfg now} {cl cl' : Call} (h : StartInv cfg now cl)
   · rw [hp, hs, hn]; exact h.lat
   · rw [hp, hs]; exact h.drain
   · rw [hs]; exact h.nev
+  · rw [hp]; exact h.drainMode
 
 theorem ChanInv_finMove {cfg now} {cl : Call} {pre a post} (h : ChanInv cfg now cl)
     (hatt : cl.attempts = pre ++ a :: post) (hfin : a.fin = none) (hdue : a.doneAt ≤ now)
@@ -212,6 +225,19 @@ theorem ChanInv_finMove {cfg now} {cl : Call} {pre a post} (h : ChanInv cfg now 
       simp only [finErr, Option.isSome_some, Bool.true_and]
       split <;> omega
     · intro hp; rw [hp] at hc; simp [live] at hc
+    · intro hl b hb hsd hbs
+      show b ∈ cl.chan ++ [_] ∨ b ∈ cl.recvd
+      simp only [List.mem_append, List.mem_cons] at hb
+      simp only [List.mem_append, List.mem_singleton]
+      rcases hb with hb | hb | hb
+      · rcases h.sentIn hl b (memOld b (Or.inl hb)) hsd hbs with q | q
+        · exact Or.inl (Or.inl q)
+        · exact Or.inr q
+      · exact Or.inl (Or.inr hb)
+      · rcases h.sentIn hl b (memOld b (Or.inr hb)) hsd hbs with q | q
+        · exact Or.inl (Or.inl q)
+        · exact Or.inr q
+    · exact h.noErrYet
   · rename_i hc
     constructor
     · intro b hb tf hbf
@@ -252,6 +278,15 @@ theorem ChanInv_finMove {cfg now} {cl : Call} {pre a post} (h : ChanInv cfg now 
     · intro hp
       have hp' : cl.phase = .fresh := hp
       have := (h.fresh hp').1; rw [hatt] at this; simp at this
+    · intro hl b hb hsd hbs
+      show b ∈ cl.chan ∨ b ∈ cl.recvd
+      have hl' : live cl.phase = true := hl
+      simp only [List.mem_append, List.mem_cons] at hb
+      rcases hb with hb | hb | hb
+      · exact h.sentIn hl b (memOld b (Or.inl hb)) hsd hbs
+      · subst hb; simp only at hsd; simp [hl', hsd] at hc
+      · exact h.sentIn hl b (memOld b (Or.inr hb)) hsd hbs
+    · exact h.noErrYet
 
 theorem ResInv_finMove {cfg now} {cl : Call} {pre a post} (h : ResInv cfg now cl)
     (hatt : cl.attempts = pre ++ a :: post) (hfin : a.fin = none) :
@@ -286,8 +321,12 @@ theorem ResInv_finMove {cfg now} {cl : Call} {pre a post} (h : ResInv cfg now cl
         · exact hmin b (old b (Or.inl q)) hbo tb hbt
         · subst q; simp at hbt; omega
         · exact hmin b (old b (Or.inr q)) hbo tb hbt
+    · -- panic: every attempt had finished already
+      obtain ⟨_, _, hall⟩ := h4
+      obtain ⟨_, tf, htf, _⟩ := hall a (by rw [hatt]; simp)
+      simp [hfin] at htf
     · -- allFailed: every attempt had finished already
-      obtain ⟨_, hall⟩ := h4
+      obtain ⟨⟨_, hall⟩, _⟩ := h4
       obtain ⟨tf, htf, _⟩ := hall a (by rw [hatt]; simp)
       simp [hfin] at htf
 
@@ -350,6 +389,8 @@ theorem ChanInv_dead {cfg now} {cl cl' : Call} (h : ChanInv cfg now cl)
   · intro hl'; rw [hl] at hl'; cases hl'
   · intro hp; rw [hp] at hl; simp [live] at hl
   · intro hp; exact absurd hp hf
+  · intro hl'; rw [hl] at hl'; cases hl'
+  · intro hp; rw [hp] at hl; simp [live] at hl
 
 theorem StartInv_dead {cfg now} {cl cl' : Call} (h : StartInv cfg now cl)
     (hs : starts cl' = starts cl) (hl : live cl'.phase = false) : StartInv cfg now cl' := by
@@ -360,6 +401,7 @@ theorem StartInv_dead {cfg now} {cl cl' : Call} (h : StartInv cfg now cl)
   · intro hp; rw [hp] at hl; simp [live] at hl
   · intro hp; rw [hp] at hl; simp [live] at hl
   · rw [hs]; exact h.nev
+  · intro hp; rw [hp] at hl; simp [live] at hl
 
 theorem sendable_cases {o : Out} (h : sendable o = true) : o = .ok ∨ ∃ kd, o = .err kd := by
   cases o <;> simp [sendable] at h ⊢
@@ -368,7 +410,8 @@ theorem sendable_cases {o : Out} (h : sendable o = true) : o = .ok ∨ ∃ kd, o
 theorem ChanInv_pop_err {cfg now} {cl : Call} {m : Attempt} {rest : List Attempt}
     (h : ChanInv cfg now cl) (hc : cl.chan = m :: rest) (hl : live cl.phase = true)
     (hm : isErr m.out = true) (fe : Option (Nat × Nat)) (e' : Nat)
-    (he : cl.phase = .latency → e' = cl.errors + 1 ∧ e' < cfg.max) :
+    (he : cl.phase = .latency → e' = cl.errors + 1 ∧ e' < cfg.max)
+    (hfe : cl.phase = .drain → fe ≠ none) :
     ChanInv cfg now { cl with chan := rest, recvd := cl.recvd ++ [m], firstErr := fe, errors := e' } := by
   have hsorted := h.sorted
   rw [hc] at hsorted
@@ -398,6 +441,16 @@ theorem ChanInv_pop_err {cfg now} {cl : Call} {m : Attempt} {rest : List Attempt
   · intro hp
     have hp' : cl.phase = .fresh := hp
     rw [hp'] at hl; simp [live] at hl
+  · intro _ a ha hsd hs
+    show a ∈ rest ∨ a ∈ cl.recvd ++ [m]
+    rcases h.sentIn hl a ha hsd hs with q | q
+    · rw [hc] at q
+      rcases List.mem_cons.mp q with q | q
+      · subst q; exact Or.inr (by simp)
+      · exact Or.inl q
+    · exact Or.inr (List.mem_append_left _ q)
+  · intro hp hn
+    exact absurd hn (hfe hp)
 
 /-- the first `Ok` in the channel resolves the call -/
 theorem CallInv_resolve_ok {cfg now} {cl : Call} {m : Attempt} {rest : List Attempt}
@@ -447,7 +500,7 @@ theorem CallInv_resolve_allFailed_lat {cfg now} {cl : Call} {m : Attempt} {rest 
       rw [← length_eq_starts] at hb
       have heq : cl.attempts.countP finErr = cl.attempts.length := by simp at h1; omega
       have hall := List.countP_eq_length.mp heq
-      refine ⟨now, .allFailed x y, rfl, Nat.le_refl _, h.st.startLe, ?_, ?_⟩
+      refine ⟨now, .allFailed x y, rfl, Nat.le_refl _, h.st.startLe, ⟨?_, ?_⟩, ?_⟩
       · show cl.attempts.length = cfg.max
         simp at h1; omega
       · intro a ha
@@ -456,6 +509,10 @@ theorem CallInv_resolve_allFailed_lat {cfg now} {cl : Call} {m : Attempt} {rest 
         obtain ⟨tf, htf⟩ := Option.isSome_iff_exists.mp hfe.1
         refine ⟨tf, htf, (h.ch.finOk a ha tf htf).2.1, ?_⟩
         cases ho : a.out <;> simp [ho, isErr] at hfe <;> simp [isFail]
+      · intro _ _ a ha
+        have hfe := hall a ha
+        simp only [finErr, Bool.and_eq_true] at hfe
+        exact hfe.2
 
 theorem recvLat_inv (cfg : Cfg) (now c : Nat) : ∀ (msgs : List Attempt) (cl : Call),
     cl.chan = msgs → cl.phase = .latency → CallInv cfg now cl →
@@ -479,8 +536,11 @@ theorem recvLat_inv (cfg : Cfg) (now c : Nat) : ∀ (msgs : List Attempt) (cl : 
         exact ⟨CallInv_resolve_allFailed_lat h hc hp hm hmax _ _ _, Or.inr rfl⟩
       · rename_i hmax
         refine ih _ rfl hp ?_
-        · refine ⟨h.st.congr rfl rfl rfl, ChanInv_pop_err h.ch hc hl hm _ _ ?_, ⟨h.rs.noRes, h.rs.res⟩⟩
-          intro _; exact ⟨rfl, by omega⟩
+        · refine ⟨h.st.congr rfl rfl rfl, ChanInv_pop_err h.ch hc hl hm _ _ ?_ ?_, ⟨h.rs.noRes, h.rs.res⟩⟩
+          · intro _; exact ⟨rfl, by omega⟩
+          · intro hq
+            have hq' : cl.phase = .drain := hq
+            rw [hp] at hq'; cases hq'
     · rename_i h1 h2
       rcases sendable_cases hsend with q | ⟨kd, q⟩
       · exact absurd q h1
@@ -489,7 +549,7 @@ theorem recvLat_inv (cfg : Cfg) (now c : Nat) : ∀ (msgs : List Attempt) (cl : 
 /-- drain phase: channel empty and closed means every attempt has ended without success -/
 theorem CallInv_resolve_closed {cfg now} {cl : Call} (h : CallInv cfg now cl) (hp : cl.phase = .drain)
     (hc : cl.chan = []) (hall : cl.attempts.all (fun a => a.fin.isSome) = true) (r : Res)
-    (hr : (∃ x y, r = .allFailed x y) ∨ r = .panic) :
+    (hr : (∃ x y, r = .allFailed x y) ∨ (r = .panic ∧ cl.firstErr = none)) :
     CallInv cfg now (resolve now r cl) := by
   have hl : live cl.phase = true := by rw [hp]; rfl
   refine ⟨StartInv_dead h.st rfl rfl, ChanInv_dead h.ch rfl (List.Sublist.refl _) rfl (by simp [resolve]), ?_⟩
@@ -499,7 +559,7 @@ theorem CallInv_resolve_closed {cfg now} {cl : Call} (h : CallInv cfg now cl) (h
     refine ⟨now, r, rfl, Nat.le_refl _, h.st.startLe, ?_⟩
     rcases hr with ⟨x, y, hr⟩ | hr
     · subst hr
-      refine ⟨?_, ?_⟩
+      refine ⟨⟨?_, ?_⟩, ?_⟩
       · show cl.attempts.length = cfg.max
         rw [length_eq_starts]; exact h.st.drain hp
       · intro a ha
@@ -512,7 +572,31 @@ theorem CallInv_resolve_closed {cfg now} {cl : Call} (h : CallInv cfg now cl) (h
         | err kd => rfl
         | panic => rfl
         | never => exact absurd ho hnv
-    · subst hr; exact trivial
+      · intro h1 h2; exact absurd ⟨h1, h2⟩ (h.st.drainMode hp)
+    · obtain ⟨hr, hfe⟩ := hr
+      subst hr
+      have hrecv : cl.recvd = [] := h.ch.noErrYet hp hfe
+      refine ⟨h.st.drainMode hp, ?_, ?_⟩
+      · show cl.attempts.length = cfg.max
+        rw [length_eq_starts]; exact h.st.drain hp
+      · intro a ha
+        have hs : a.fin.isSome = true := (List.all_eq_true.mp hall) a ha
+        obtain ⟨tf, htf⟩ := Option.isSome_iff_exists.mp hs
+        obtain ⟨_, hle, hnv⟩ := h.ch.finOk a ha tf htf
+        refine ⟨?_, tf, htf, hle⟩
+        -- an attempt that sends a message would still be queued or have been received: neither
+        have hns : sendable a.out = false := by
+          cases hsd : sendable a.out with
+          | false => rfl
+          | true =>
+            rcases h.ch.sentIn hl a ha hsd hs with q | q
+            · rw [hc] at q; cases q
+            · rw [hrecv] at q; cases q
+        cases ho : a.out with
+        | ok => rw [ho] at hns; cases hns
+        | err kd => rw [ho] at hns; cases hns
+        | panic => rfl
+        | never => exact absurd ho hnv
 
 theorem recvDrain_inv (cfg : Cfg) (now c : Nat) : ∀ (msgs : List Attempt) (cl : Call),
     cl.chan = msgs → cl.phase = .drain → CallInv cfg now cl →
@@ -526,7 +610,8 @@ theorem recvDrain_inv (cfg : Cfg) (now c : Nat) : ∀ (msgs : List Attempt) (cl 
     · rename_i hall
       split
       · exact CallInv_resolve_closed h hp hc hall _ (Or.inl ⟨_, _, rfl⟩)
-      · exact CallInv_resolve_closed h hp hc hall _ (Or.inr rfl)
+      · rename_i hfe
+        exact CallInv_resolve_closed h hp hc hall _ (Or.inr ⟨rfl, hfe⟩)
     · exact h
   | cons m rest ih =>
     intro cl hc hp h
@@ -539,10 +624,13 @@ theorem recvDrain_inv (cfg : Cfg) (now c : Nat) : ∀ (msgs : List Attempt) (cl 
     · rename_i kd herr
       have hm : isErr m.out = true := by rw [herr]; rfl
       refine ih _ rfl hp ?_
-      refine ⟨h.st.congr rfl rfl rfl, ChanInv_pop_err h.ch hc hl hm _ _ ?_, ⟨h.rs.noRes, h.rs.res⟩⟩
-      intro hq
-      have hq' : cl.phase = .latency := hq
-      rw [hp] at hq'; cases hq'
+      refine ⟨h.st.congr rfl rfl rfl, ChanInv_pop_err h.ch hc hl hm _ _ ?_ ?_, ⟨h.rs.noRes, h.rs.res⟩⟩
+      · intro hq
+        have hq' : cl.phase = .latency := hq
+        rw [hp] at hq'; cases hq'
+      · intro _
+        unfold firstErrOf
+        split <;> simp
     · rename_i h1 h2
       rcases sendable_cases hsend with q | ⟨kd, q⟩
       · exact absurd q h1
@@ -596,6 +684,11 @@ theorem ChanInv_push {cfg now} {cl : Call} {a : Attempt} (h : ChanInv cfg now cl
     show cl.errors + cl.chan.countP _ = (a :: cl.attempts).countP finErr
     simp [hfe]; exact h1
   · intro hq; exact absurd hq hp
+  · intro hl b hb hsd hs
+    rcases List.mem_cons.mp hb with q | q
+    · subst q; rw [ha] at hs; cases hs
+    · exact h.sentIn hl b q hsd hs
+  · exact h.noErrYet
 
 theorem ResInv_push {cfg now} {cl : Call} {a : Attempt} (h : ResInv cfg now cl) (hp : cl.phase ≠ .done) :
     ResInv cfg now { cl with attempts := a :: cl.attempts } :=
@@ -748,8 +841,8 @@ theorem spawnLat_inv (cfg : Cfg) (now c : Nat) : ∀ (fuel : Nat) (w : W),
         simp only [List.length_cons] at hold ⊢; omega
       apply ih
       · split
-        · refine ⟨?_, ⟨q1.finOk, q1.sorted, q1.chanMem, q1.okIn, q1.recvdErr, q1.count, q1.fresh⟩,
-            ⟨q2.noRes, q2.res⟩⟩
+        · refine ⟨?_, ⟨q1.finOk, q1.sorted, q1.chanMem, q1.okIn, q1.recvdErr, q1.count, q1.fresh, q1.sentIn,
+            q1.noErrYet⟩, ⟨q2.noRes, q2.res⟩⟩
           constructor
           · show (starts (startAttempt now c w).cl).length ≤ cfg.max
             rw [q4, hst]; simp; omega
@@ -768,6 +861,9 @@ theorem spawnLat_inv (cfg : Cfg) (now c : Nat) : ∀ (fuel : Nat) (w : W),
           · show 1 < cfg.max → cfg.delay 1 ≠ 0 → ∀ n, 1 ≤ n → cfg.never n = true →
               (starts (startAttempt now c w).cl).length ≤ n
             rw [q4, hst]; exact hnev
+          · intro hq
+            have hq' : (startAttempt now c w).cl.phase = .drain := hq
+            rw [q3, hp] at hq'; cases hq'
         · rename_i hnm
           refine ⟨?_, q1, q2⟩
           constructor
@@ -780,6 +876,7 @@ theorem spawnLat_inv (cfg : Cfg) (now c : Nat) : ∀ (fuel : Nat) (w : W),
             exfalso; apply hnm; rw [hn]; simpa using hlt
           · intro hq; rw [q3, hp] at hq; cases hq
           · rw [q4, hst]; exact hnev
+          · intro hq; rw [q3, hp] at hq; cases hq
       · split
         · show (startAttempt now c w).cl.phase = .latency
           rw [q3, hp]
@@ -822,6 +919,8 @@ theorem pollFresh_inv {cfg : Cfg} {now : Nat} (c : Nat) {w : W} (hmax : 1 ≤ cf
         show w.cl.errors + w.cl.chan.countP _ = w.cl.attempts.countP finErr ∧ w.cl.errors < cfg.max
         rw [ha, hc, he]; simp; omega
       · intro hq; cases hq
+      · intro _ a hx; rw [ha] at hx; cases hx
+      · intro hq; cases hq
     have r0 : ResInv cfg now { w.cl with phase := .latency, nextHedgeAt := now + timerMs cfg 1 } :=
       ⟨fun _ => hres, fun hq => by cases hq⟩
     obtain ⟨q1, q2, q3, q4, q5, _⟩ :=
@@ -840,6 +939,7 @@ theorem pollFresh_inv {cfg : Cfg} {now : Nat} (c : Nat) {w : W} (hmax : 1 ≤ cf
       intro _; rw [q5]; rfl
     · intro hq; rw [q3] at hq; cases hq
     · rw [q4']; intro _ _ n hn1 _; simpa using hn1
+    · intro hq; rw [q3] at hq; cases hq
   · rename_i hg
     have c0 : ChanInv cfg now { w.cl with phase := .drain } := by
       constructor
@@ -850,6 +950,8 @@ theorem pollFresh_inv {cfg : Cfg} {now : Nat} (c : Nat) {w : W} (hmax : 1 ≤ cf
       · intro _ m hm; rw [hr] at hm; cases hm
       · intro hq; cases hq
       · intro hq; cases hq
+      · intro _ a hx; rw [ha] at hx; cases hx
+      · intro _ _; exact hr
     have r0 : ResInv cfg now { w.cl with phase := .drain } :=
       ⟨fun _ => hres, fun hq => by cases hq⟩
     obtain ⟨q1, q2, q3, q4, _, _⟩ :=
@@ -877,6 +979,7 @@ theorem pollFresh_inv {cfg : Cfg} {now : Nat} (c : Nat) {w : W} (hmax : 1 ≤ cf
     · intro hq; rw [r3, q3] at hq; cases hq
     · intro _; rw [r4']; simp
     · intro h1 h2; exact absurd ⟨h1, h2⟩ hg
+    · intro _; exact hg
 
 /-! ## one poll, one drop, time -/
 
@@ -910,8 +1013,10 @@ theorem dropCall_inv {cfg : Cfg} {now : Nat} {cl : Call} (h : CallInv cfg now cl
 
 theorem CallInv.mono {cfg : Cfg} {now now' : Nat} {cl : Call} (h : CallInv cfg now cl) (hle : now ≤ now') :
     CallInv cfg now' cl := by
-  refine ⟨⟨h.st.bound, h.st.spaced, fun t ht => Nat.le_trans (h.st.startLe t ht) hle, h.st.lat, h.st.drain, h.st.nev⟩,
-    ⟨?_, h.ch.sorted, h.ch.chanMem, h.ch.okIn, h.ch.recvdErr, h.ch.count, h.ch.fresh⟩, ⟨h.rs.noRes, ?_⟩⟩
+  refine ⟨⟨h.st.bound, h.st.spaced, fun t ht => Nat.le_trans (h.st.startLe t ht) hle, h.st.lat, h.st.drain, h.st.nev,
+      h.st.drainMode⟩,
+    ⟨?_, h.ch.sorted, h.ch.chanMem, h.ch.okIn, h.ch.recvdErr, h.ch.count, h.ch.fresh, h.ch.sentIn, h.ch.noErrYet⟩,
+    ⟨h.rs.noRes, ?_⟩⟩
   · intro a ha tf htf
     obtain ⟨q1, q2, q3⟩ := h.ch.finOk a ha tf htf
     exact ⟨q1, Nat.le_trans q2 hle, q3⟩
@@ -921,8 +1026,8 @@ theorem CallInv.mono {cfg : Cfg} {now now' : Nat} {cl : Call} (h : CallInv cfg n
 
 theorem CallInv_new (cfg : Cfg) (now : Nat) (plan : List Step) (warm : List Ready) :
     CallInv cfg now { plan := plan, warm := warm } := by
-  refine ⟨⟨Nat.zero_le _, trivial, ?_, ?_, ?_, fun _ _ n _ _ => Nat.zero_le n⟩,
-    ⟨?_, List.Pairwise.nil, ?_, ?_, ?_, ?_, ?_⟩, ⟨fun _ => rfl, ?_⟩⟩
+  refine ⟨⟨Nat.zero_le _, trivial, ?_, ?_, ?_, fun _ _ n _ _ => Nat.zero_le n, (fun hq => nomatch hq)⟩,
+    ⟨?_, List.Pairwise.nil, ?_, ?_, ?_, ?_, ?_, (fun _ a ha => nomatch ha), (fun hq => nomatch hq)⟩, ⟨fun _ => rfl, ?_⟩⟩
   · intro t ht; cases ht
   · intro hq; cases hq
   · intro hq; cases hq
@@ -1056,6 +1161,9 @@ theorem ChanInv_swap {cfg now} {cl : Call} {pre post : List Attempt} {a a' : Att
     rw [cnt]; exact h1
   · intro hp
     have := (h.fresh hp).1; rw [hatt] at this; simp at this
+  · intro hl b hb hsd hs
+    exact h.sentIn hl b (memOld b (newSplit b hb hs)) hsd hs
+  · exact h.noErrYet
 
 theorem starts_swap {cl : Call} {pre post : List Attempt} {a a' : Attempt}
     (hatt : cl.attempts = pre ++ a :: post) (hs : a'.startAt = a.startAt) :
@@ -1090,7 +1198,10 @@ theorem ResInv_swap {cfg now} {cl : Call} {pre post : List Attempt} {a a' : Atte
         · exact Or.inl q
         · subst q; simp [hf'] at hbt
         · exact Or.inr (Or.inr q)
-    · obtain ⟨_, hall⟩ := h4
+    · obtain ⟨_, _, hall⟩ := h4
+      obtain ⟨_, tf, htf, _⟩ := hall a (by rw [hatt]; simp)
+      simp [hf] at htf
+    · obtain ⟨⟨_, hall⟩, _⟩ := h4
       obtain ⟨tf, htf, _⟩ := hall a (by rw [hatt]; simp)
       simp [hf] at htf
 
